@@ -34,6 +34,10 @@ type Case struct {
 	HeaderKind string `json:"header_kind"` // none | integer | array | string | object
 	// HeaderExplode: the explode field of the declared header: "" (absent: false) | "true" | "false"
 	HeaderExplode string `json:"header_explode,omitempty"`
+	// HeaderName: the declared spelling of the extra header ("" = X-V); HTTP header names are case-insensitive
+	HeaderName string `json:"header_name,omitempty"`
+	// HeaderByContent: the header is declared through content (application/json) instead of schema
+	HeaderByContent bool `json:"header_by_content,omitempty"`
 	HeaderVal     string `json:"header_val"` // JSON value of the extra declared header X-V (when present)
 	HeaderSent    bool   `json:"header_sent"`
 	HeaderReq     bool   `json:"header_required"`
@@ -104,12 +108,19 @@ func check(c Case) (o h.Outcome) {
 		// each entry requires its own marker header: the selected entry is observable
 		hs := M{markerHeader(k): M{"required": true, "schema": M{"type": "string"}}}
 		if hsch := headerSchema(c.HeaderKind); hsch != nil {
-			hs["X-V"] = M{"required": c.HeaderReq, "schema": hsch}
+			hname := c.HeaderName
+			if hname == "" {
+				hname = "X-V"
+			}
+			hs[hname] = M{"required": c.HeaderReq, "schema": hsch}
+			if c.HeaderByContent {
+				hs[hname] = M{"required": c.HeaderReq, "content": M{"application/json": M{"schema": hsch}}}
+			}
 			switch c.HeaderExplode {
 			case "true":
-				hs["X-V"].(M)["explode"] = true
+				hs[hname].(M)["explode"] = true
 			case "false":
-				hs["X-V"].(M)["explode"] = false
+				hs[hname].(M)["explode"] = false
 			}
 		}
 		r := M{"description": "d", "headers": hs}
@@ -138,7 +149,14 @@ func check(c Case) (o h.Outcome) {
 	if c.HeaderSent && c.HeaderKind != "none" {
 		hv = jv.Parse(c.HeaderVal)
 		text, _ := styleser.Header(c.HeaderExplode == "true", hv)
-		hdr.Set("X-V", text)
+		if c.HeaderByContent {
+			text = jv.Canon(hv) // the media type of the declaration: JSON
+		}
+		hname := c.HeaderName
+		if hname == "" {
+			hname = "X-V"
+		}
+		hdr.Set(hname, text) // Set stores the canonical spelling, as a server or client would
 	}
 	if c.CT != "" {
 		hdr.Set("Content-Type", c.CT)
@@ -419,6 +437,8 @@ func gen(t *rapid.T) Case {
 	}
 	c.HeaderKind = rapid.SampledFrom([]string{"none", "integer", "array", "string", "object"}).Draw(t, "hkind")
 	c.HeaderExplode = rapid.SampledFrom([]string{"", "true", "false"}).Draw(t, "hexplode")
+	c.HeaderName = rapid.SampledFrom([]string{"", "", "ETag", "X-Request-ID", "x-rate-limit", "X-v"}).Draw(t, "hname")
+	c.HeaderByContent = rapid.IntRange(0, 3).Draw(t, "hbycontent") == 0
 	c.HeaderSent = rapid.IntRange(0, 3).Draw(t, "hsent") > 0
 	c.HeaderReq = rapid.Bool().Draw(t, "hreq")
 	switch c.HeaderKind {
